@@ -283,6 +283,71 @@ Proof.
   cbn in H0. destruct (env 0%Z); cbn in *; congruence.
 Qed.
 
+(** ---- billing read paths: the caller restriction is an OPTIONAL conjunct (appended when the handler passes a user) next to
+         other optional conjuncts (end date, billing project).  Atoms: 30 `user` = %s, 31 JSON_CONTAINS(users, JSON_QUOTE(%s)),
+         32 billing_projects.name_cs = %s ---- *)
+
+Lemma billing_init_tight : forall e u, Forall (fun c => tightb c = true) (C14.Lists.billing_init e u).
+Proof. intros [] []; repeat constructor. Qed.
+
+Lemma bp_with_cost_init_tight : forall u b, Forall (fun c => tightb c = true) (C14.Lists.bp_with_cost_init u b).
+Proof. intros [] []; repeat constructor. Qed.
+
+Lemma bp_without_cost_init_tight : forall u b, Forall (fun c => tightb c = true) (C14.Lists.bp_without_cost_init u b).
+Proof. intros [] []; repeat constructor. Qed.
+
+(** whenever the handler passes a user (every non-developer caller), whatever the start / end parameters are,
+    only rows of that user satisfy the clause *)
+Theorem billing_scoped : forall has_end env,
+  holds env (join_and (C14.Lists.billing_init has_end true)) = true -> env 30%Z = true.
+Proof.
+  intros e env H.
+  pose proof (where_scoped env _ (billing_init_tight e true) H) as Hall.
+  assert (H0 : tval env [IAtom 30%Z] = true) by (apply Hall; destruct e; cbn; auto 10).
+  exact H0.
+Qed.
+
+Theorem bp_with_cost_scoped : forall has_bp env,
+  holds env (join_and (C14.Lists.bp_with_cost_init true has_bp)) = true ->
+  env 31%Z = true /\ (has_bp = true -> env 32%Z = true).
+Proof.
+  intros b env H.
+  pose proof (where_scoped env _ (bp_with_cost_init_tight true b) H) as Hall.
+  split.
+  - assert (H0 : tval env [IAtom 31%Z] = true) by (apply Hall; destruct b; cbn; auto 10). exact H0.
+  - intros ->. assert (H0 : tval env [IAtom 32%Z] = true) by (apply Hall; cbn; auto 10). exact H0.
+Qed.
+
+Theorem bp_without_cost_scoped : forall has_bp env,
+  holds env (join_and (C14.Lists.bp_without_cost_init true has_bp)) = true ->
+  env 31%Z = true /\ (has_bp = true -> env 32%Z = true).
+Proof.
+  intros b env H.
+  pose proof (where_scoped env _ (bp_without_cost_init_tight true b) H) as Hall.
+  split.
+  - assert (H0 : tval env [IAtom 31%Z] = true) by (apply Hall; destruct b; cbn; auto 10). exact H0.
+  - intros ->. assert (H0 : tval env [IAtom 32%Z] = true) by (apply Hall; cbn; auto 10). exact H0.
+Qed.
+
+(** the single-project read: the project of the URL is a conjunct whoever calls *)
+Theorem bp_with_cost_project_scoped : forall has_user env,
+  holds env (join_and (C14.Lists.bp_with_cost_init has_user true)) = true -> env 32%Z = true.
+Proof.
+  intros u env H.
+  pose proof (where_scoped env _ (bp_with_cost_init_tight u true) H) as Hall.
+  assert (H0 : tval env [IAtom 32%Z] = true) by (apply Hall; destruct u; cbn; auto 10). exact H0.
+Qed.
+
+(** not vacuous: a clause with all optional filters holds under some assignment *)
+Example billing_holds : exists env, holds env (join_and (C14.Lists.billing_init true true)) = true.
+Proof. exists (fun _ => true). vm_compute. reflexivity. Qed.
+
+(** the restriction must not depend on the other optional filters: a chain in which the user conjunct is only appended when
+    no end date is given admits rows of other users *)
+Lemma user_filter_in_elif_leaks : exists env,
+  holds env (join_and ([[IAtom 121%Z]; [IAtom 122%Z]] ++ (if true then [[IAtom 123%Z]] else [[IAtom 30%Z]]))) = true /\ env 30%Z = false.
+Proof. exists (fun a => negb (Z.eqb a 30%Z)). split; reflexivity. Qed.
+
 (** ---- the hypothesis is needed, and the theorems are not vacuous ---- *)
 
 (** an unbracketed two-state OR-join after the scope: true although the scope atom 0 is false *)
